@@ -216,6 +216,33 @@ def rule_c(ctx: Context, R: Reporter, fin: FuncInfo, run: FuncInfo, wfn: FuncInf
         witness={"unsupported_returns": [str(b) for b in bad][:4], "return_paths": n_ret}, key=f"ess-limit-supported:{up.short}",
     )
     R.analysed["C05.c:upper_limit_paths"] = n_ret
+    # the target handed to the ESS-limit search is the ESS target ess_ratio * n_particles in every mode
+    from ..provenance import Tracer
+
+    T = Tracer(ctx)
+    cfg_classes = [c.name for c in ctx.prog.classes.values() if c.is_dataclass]
+    n_sites = 0
+    for (call, tg) in ctx.cg.sites.get(run.qualname, []):
+        if up not in [t for t in tg if isinstance(t, FuncInfo)]:
+            continue
+        n_sites += 1
+        arg = call_arg(call, 1, tgt_p)
+        at = flow_of(run.node).node_containing(call)
+        origs = T.origins(run, arg, at) if arg is not None else []
+        fields = set()
+        import re as _re
+
+        for o in origs:
+            mm = _re.match(r"parameter (\w+) of public " + _re.escape(run.cls.name) + r"\.__init__", o.detail)
+            if mm:
+                fields.add(mm.group(1))
+        bad = sorted(f for f in fields if f not in ("ess_ratio", "n_particles"))
+        ok = arg is not None and {"ess_ratio", "n_particles"} <= fields and not bad
+        R.check("C05.c", "the ESS-limit search is given the ESS target ess_ratio * n_particles (in every metric mode)", ok, run, call,
+                msg=f"{run.short}: `{unparse(call)[:70]}` passes a target whose provenance is the constructor argument(s) {sorted(fields)}"
+                    + (f": {bad} is not the ESS target -- in volume-variation mode the ESS limit on the advance disappears" if bad else ""),
+                witness={"origins": [repr(o) for o in origs][:6]}, key="ess-limit-target")
+    R.floor("C05.c", "call sites of the ESS-limit search", n_sites, 1)
     # two-mode bisection table
     n_tab = 0
     for f in ctx.prog.functions.values():
